@@ -285,6 +285,13 @@ def rw_drop_cfg_verbose(text):
             ch = msk[j]
             if ch in "({[":
                 depth += 1
+            elif ch in ")}]" and depth == 0:
+                # the attribute guards the last element of an argument / field list: stop before the closer
+                break
+            elif ch == "," and depth == 0:
+                # ... or an element in the middle of such a list: drop it with its comma
+                j += 1
+                break
             elif ch in ")}]":
                 depth -= 1
                 if depth == 0 and ch == "}":
